@@ -1,6 +1,6 @@
 #!/bin/bash
 # Applies every seeded change to /repo in turn, runs the intended check (quick), reverts; prints one line each.
-cd /verif
+cd "$(dirname "$0")/.."
 for d in seeded/*/; do
   name=$(basename $d); prop=$(python3 -c "import json;print(json.load(open('$d/meta.json'))['property'])")
   tools/try_mutant.sh $name $prop quick 2>&1 | head -1
